@@ -180,7 +180,7 @@ def run(pid, tier, replay=None):
         defs = EXTRA + "UBlocksDef == %s\nUTxsDef == %s\nGenesisDef == %s\n" % (store_drv.tla(ub), store_drv.tla(ut), store_drv.tla(gen))
         mcc = {k: v for k, v in consts.items() if k != "Focus"}
         mcc.update({"UBlocks": ("<-", "UBlocksDef"), "UTxs": ("<-", "UTxsDef"), "GenesisB": ("<-", "GenesisDef"),
-                    "Now": 1000, "MaxSteps": 4 if quick else 5, "EmitHist": False, "Peers": {"p", "q"}})
+                    "Now": 1000, "MaxSteps": 4 if quick else 5, "EmitHist": False, "Peers": {"p", "q"}, "Irts": {0}})
         invs = ["I_C13_PoolValid", "I_C13_PoolCompatible", "I_C09_StoreNotImpaired", "I_C09_BufferOnlyServed", "I_C09_RowsOnlyServed",
                 "I_C09_RelayAtMostOnce", "I_C09_AcceptedStored", "I_C09_ServedValid"]
         fixed = dict(mcc, SaveBeforeApply=False)
@@ -196,6 +196,18 @@ def run(pid, tier, replay=None):
                     expect_violation="I_C09_BufferOnlyServed / I_C09_StoreNotImpaired")
         if not rw.violated:
             return machinery_failure(pid, "vacuity: the buffer-before-apply ordering does not violate the store invariants in the model")
+        # bulk download at design level: blocks also arrive as answers to requests and are then validated only at even heights; a
+        # validated block that fails rolls back to the last validated state.  (Unvalidated blocks may be invalid -- by design -- so
+        # only the pool and store invariants are claimed here.)
+        ri = tracecheck.model("MC_Node", "Spec", dict(fixed, Irts={0, 1}, IbdSkip=2, Peers={"p"}, MaxSteps=4), workers=16, timeout=1500,
+                              extra_defs=defs, view="View", invariants=["I_C13_PoolValid", "I_C13_PoolCompatible", "I_C09_StoreNotImpaired", "I_C09_RowsOnlyServed"])
+        if getattr(ri, "timed_out", False):
+            chk.notes.append("MC_Node bulk-download run: time box reached without a violation")
+        else:
+            tlc.require_clean(ri, "MC_Node bulk download")
+            chk.add_tlc("MC_Node with bulk-download deliveries (in_response_to in {0,1}, validation at even heights only, 1 peer, <= 4 deliveries)", ri)
+            if ri.violated:
+                return machinery_failure(pid, "MC_Node (bulk download) violates %s" % ri.violated)
         # ---- (b) spec -> code
         rg = tracecheck.model("MC_Node", "Spec", dict(fixed, EmitHist=True, MaxSteps=4), workers=1, timeout=1200, extra_defs=defs,
                               view="View", invariants=["I_Emit"])
